@@ -2,6 +2,7 @@ package leader
 
 import (
 	"context"
+	"sync"
 	"time"
 
 	"github.com/nats-io/nats.go"
@@ -464,22 +465,31 @@ func (a *natsKeyValueAdapter) Watch(key string, opts ...interface{}) (Watcher, e
 }
 
 type natsWatcherAdapter struct {
-	watcher nats.KeyWatcher
+	watcher   nats.KeyWatcher
+	once      sync.Once
+	entryChan chan Entry
 }
 
+// Updates returns the channel on which the watcher's entries are delivered.
+// The channel and its forwarding goroutine are created once: the watch loop
+// calls Updates() before every receive, and a new channel per call would
+// leave a goroutine behind each time and spread the events over channels
+// nobody reads any more.
 func (a *natsWatcherAdapter) Updates() <-chan Entry {
-	entryChan := make(chan Entry, 1)
-	go func() {
-		defer close(entryChan)
-		for natsEntry := range a.watcher.Updates() {
-			if natsEntry != nil {
-				entryChan <- &natsEntryAdapter{entry: natsEntry}
-			} else {
-				entryChan <- nil
+	a.once.Do(func() {
+		a.entryChan = make(chan Entry, 1)
+		go func() {
+			defer close(a.entryChan)
+			for natsEntry := range a.watcher.Updates() {
+				if natsEntry != nil {
+					a.entryChan <- &natsEntryAdapter{entry: natsEntry}
+				} else {
+					a.entryChan <- nil
+				}
 			}
-		}
-	}()
-	return entryChan
+		}()
+	})
+	return a.entryChan
 }
 
 func (a *natsWatcherAdapter) Stop() {
